@@ -47,7 +47,9 @@ def shapes():
     r.add_float_param('x', 0.0, 1.0, scale_type=vz.ScaleType.LOG); r.add_float_param('y', 0.0, 1.0)
   # decimal bounds: lo + 1.0 * (hi - lo) computed by hand lands one ulp outside for about one pair in ten
   def s_decimal(r): r.add_float_param('x', 0.3, 0.9); r.add_float_param('y', -0.1, 0.3); r.add_float_param('z', 0.6, 1.7)
-  return {'decimal': s_decimal, 'defaults': s_defaults, 'baddefault': s_baddefault, 'logzero': s_logzero, 'unit': s_unit, 'neg': s_neg, 'log': s_log, 'int': s_int, 'disc': s_disc, 'cat': s_cat, 'mixed': s_mixed, 'single': s_single,
+  # integer bounds beyond 2**24 that are not float32 numbers (dates as yyyymmdd): float32 code paths must still land inside
+  def s_bigint(r): r.add_int_param('n', 20241201, 20241231); r.add_float_param('x', 0.0, 1.0)
+  return {'bigint': s_bigint, 'decimal': s_decimal, 'defaults': s_defaults, 'baddefault': s_baddefault, 'logzero': s_logzero, 'unit': s_unit, 'neg': s_neg, 'log': s_log, 'int': s_int, 'disc': s_disc, 'cat': s_cat, 'mixed': s_mixed, 'single': s_single,
           'bool': s_bool, 'big': s_big, 'tiny': s_tiny, 'bin': s_bin, 'f32edge': s_f32edge, 'hugelog': s_hugelog, 'tinylog': s_tinylog}
 
 
@@ -319,6 +321,54 @@ def hosted_session(algorithm, prob, sched):
   return out, None
 
 
+def hosted_neighbours(algorithm, prob_a, prob_b, prob_c, backend_url):
+  """Two studies of one owner whose names are prefixes of each other (h, h0), with DIFFERENT spaces, served alternately by
+  one servicer; then h is deleted and created again with a third space.  Every suggestion must lie in the space of the
+  study it was made for.  Returns [(problem, suggestion records)], refusal."""
+  from vizier._src.service import pythia_service
+  from vizier._src.service import study_pb2
+  from vizier._src.service import vizier_service
+  from vizier._src.service import vizier_service_pb2 as vs
+  from vizier._src.pyvizier.oss import proto_converters as pcv
+  from vizier.service import pyvizier as svz
+  svc = vizier_service.VizierServicer(database_url=backend_url)
+  svc.default_pythia_service = pythia_service.PythiaServicer(svc, policy_factory=_SeededFactory())
+
+  def create(display, prob):
+    sc = svz.StudyConfig.from_problem(prob)
+    sc.algorithm = algorithm
+    return svc.CreateStudy(vs.CreateStudyRequest(parent='owners/n', study=study_pb2.Study(display_name=display, study_spec=sc.to_proto()))).name
+
+  def suggest(name, n, worker):
+    op = svc.SuggestTrials(vs.SuggestTrialsRequest(parent=name, suggestion_count=n, client_id=worker))
+    if op.HasField('error'):
+      raise RuntimeError('operation-error:' + op.error.message[:80])
+    out = []
+    for t in vs.SuggestTrialsResponse.FromString(op.response.value).trials:
+      pt = pcv.TrialConverter.from_proto(t)
+      out.append([{'name': kk, 'v': fkey.value_record(v.value)} for kk, v in sorted(pt.parameters.items())])
+      r = vs.CompleteTrialRequest(name=t.name)
+      for mi in prob_a.metric_information:
+        r.final_measurement.metrics.add(metric_id=mi.name, value=1.0)
+      svc.CompleteTrial(r)
+    return out
+  res = {'a': [], 'b': [], 'c': []}
+  try:
+    na = create('h', prob_a)
+    nb = create('h0', prob_b)
+    for k in range(3):
+      res['a'] += suggest(na, 2, 'wa')
+      res['b'] += suggest(nb, 2, 'wb')
+    svc.DeleteStudy(vs.DeleteStudyRequest(name=na))
+    nc = create('h', prob_c)
+    for k in range(2):
+      res['c'] += suggest(nc, 2, 'wa')
+      res['b'] += suggest(nb, 1, 'wb')
+  except Exception as e:  # pylint: disable=broad-except
+    return [(prob_a, res['a']), (prob_b, res['b']), (prob_c, res['c'])], 'refused:%s:%s' % (type(e).__name__, str(e)[:80])
+  return [(prob_a, res['a']), (prob_b, res['b']), (prob_c, res['c'])], None
+
+
 def hosted_observations(ctx, scheds, rng, cat):
   """Observations (same format as the designer sessions, run A only) of algorithms hosted in the servicer."""
   obs, meta = [], []
@@ -339,6 +389,20 @@ def hosted_observations(ctx, scheds, rng, cat):
       obs.append({'space': fkey.space_record(prob.search_space), 'runs': {'A': a, 'B': a, 'C': a, 'D': a}, 'state': {'A': [], 'B': []},
                   'extra': [], 'cmp': 'sug', 'restartable': False, 'randomised': False})
       meta.append({'algorithm': 'hosted:' + algorithm, 'shape': shape, 'schedule': list(sched), 'seed': 0, 'refusal': refusal, 'secs': round(time.time() - t0, 2)})
+  # neighbouring studies (names that are prefixes of each other, different spaces, delete + re-create) on RAM and SQLite
+  from vizier._src.service import constants
+  triples = [('unit', 'mixed', 'neg'), ('cat', 'int', 'mixed'), ('disc', 'unit', 'bool')]
+  for algorithm in ('RANDOM_SEARCH', 'QUASI_RANDOM_SEARCH', 'GRID_SEARCH', 'EAGLE_STRATEGY', 'NSGA2'):
+    for url, bname in ((None, 'ram'), (constants.SQL_MEMORY_URL, 'sqlmem')):
+      ta, tb, tc = rng.choice(triples)
+      m = 2 if algorithm == 'NSGA2' else 1
+      t0 = time.time()
+      parts, refusal = hosted_neighbours(algorithm, problem(ta, m), problem(tb, m), problem(tc, m), url)
+      for prob, sugg in parts:
+        obs.append({'space': fkey.space_record(prob.search_space), 'runs': {'A': sugg, 'B': sugg, 'C': sugg, 'D': sugg}, 'state': {'A': [], 'B': []},
+                    'extra': [], 'cmp': 'sug', 'restartable': False, 'randomised': False})
+        meta.append({'algorithm': 'neighbours:%s:%s' % (algorithm, bname), 'shape': '%s|%s|%s' % (ta, tb, tc), 'schedule': [], 'seed': 0, 'refusal': refusal,
+                     'secs': round(time.time() - t0, 2)})
   return obs, meta
 
 
